@@ -8,7 +8,6 @@ structure RmSt where
   st : St := {}
   live : List Nat := []      -- sids known to the socket store
 
-def plusList (s : String) : List Nat := if s = "" || s = "-" then [] else (s.splitOn "+").filterMap String.toNat?
 
 /-- `T/E` -/
 def parseTE (s : String) : List Nat × List Nat :=
